@@ -105,7 +105,7 @@ CHECKS = {
     text="Seeded timed scenarios: will {QoS, retain, delay 0/1/2 s, v3.1.1/v5} x ending {DISCONNECT 0x00, DISCONNECT 0x04, socket close, malformed packet, keep-alive timeout, take-over with Clean Start 0/1, TerminateSession} x session expiry {0,1,5 s} "
          "x reconnect {none, before, after the delay}. TLC validates that the will is published exactly once (publication event + delivery to a watcher with the QoS / RETAIN its subscription yields), not before min(delay, expiry) after the end "
          "of the connection, within 500 ms after it, immediately when the session ends, never after DISCONNECT 0x00 and never after a resume before the delay.",
-    note="Real seconds; tolerance windows 200 ms early / 500 ms late / 450 ms around resume decisions. Will application properties (payload format, content type, response topic, correlation data, user properties) are compared; storing a retained will is not examined."),
+    note="Real seconds; tolerance windows 200 ms early / 500 ms late / 450 ms around resume decisions. Will application properties (payload format, content type, response topic, correlation data, user properties) are compared, and a will published with Will Retain must be replayed to a later subscriber."),
  "C10": dict(
     level="model_checking", ref="DESIGN.md §4 C10, App. B.1",
     technique="TLC exhaustive Queue.tla (functional-style queue model with fate map and drop ladder) + transition-coverage replay with probe sequences into the memory queue and the redis queue (RESP fake)",
